@@ -10,8 +10,8 @@ def fact : Nat → Nat
   | 0 => 1
   | n + 1 => (n + 1) * fact n
 
-/-- `int(np.max(np.abs(x.value)))` -/
-def maxAbsFloor (a : MV) : Nat := (a.foldl (fun m q => if q.abs > m then q.abs else m) (0 : Rat)).floor.toNat
+/-- `int(np.sum(np.abs(x.value)))` (the sum of the absolute coefficients bounds the norm of the operand) -/
+def sumAbsFloor (a : MV) : Nat := (a.foldl (fun m q => m + q.abs) (0 : Rat)).floor.toNat
 
 /-- the scaling loop of `exp`: `if max_val > 1: max_val <<= 1; while max_val: max_val >>= 1; scale <<= 1` -/
 def expScale (maxVal : Nat) : Nat :=
@@ -26,7 +26,7 @@ def expScale (maxVal : Nat) : Nat :=
 def expSeries (eps : Rat) (maxOrder : Nat) (x : MV) : MV :=
   let result0 := C.add C.one (C.smul 0 x)
   if maxOrder = 0 then result0 else
-  let scale := expScale (maxAbsFloor x)
+  let scale := expScale (sumAbsFloor x)
   let scaled := C.smul (1 / (scale : Rat)) x
   let st := (List.range' 1 (maxOrder - 1)).foldl (fun (st : MV × MV × Bool) (i : Nat) =>
     let (res, tmp, stop) := st
